@@ -3,6 +3,7 @@ package rules
 import (
 	"fmt"
 	"go/token"
+	"go/types"
 	"strings"
 
 	"bxhlint/core"
@@ -36,6 +37,8 @@ func C02(c *Ctx) {
 	c.c02Windows()
 	r.Rule("R02.6", "acceptance consumes the index: on every path of ProcessIBTP through the request branch (Category() == REQUEST and not a rollback notification) InterchainCounter[to] is advanced and the record is written back before the function returns - also when the target is unavailable and the transaction begins as failed; otherwise checkIBTP keeps expecting the same index and the identical request is accepted again.")
 	r.Rule("R02.7", "listed in the accepting block and in no other (shared with C09 R09.9, C01 R01.7): "+perBlockResetText)
+	r.Rule("R02.8", childReceiptFSMText)
+	c.childReceiptThroughFSM("R02.8")
 	c.perBlockReset("R02.7")
 	c.c02Consumes()
 	r.NotDecided = append(r.NotDecided, "that the counters equal the number of accepted IBTPs over a history; block packing; unordered (batch) destinations are outside the property's 'ordered pair' scope")
@@ -119,7 +122,9 @@ func C02(c *Ctx) {
 							}
 							guardCall[cl] = true
 							kk, pp, ww := fmt.Sprintf("checkIBTP: checkIndex #%d arguments", nIdx), c.P.Pos(cl.Pos()), "expected index = "+field+"[dst] + 1, current = ibtp.Index (through "+g.Name()+")"
-							emit = append(emit, func() { r.Check(okShape, "R02.1", kk, pp, ww, "checkIndex is not called with (counter[dst]+1, ibtp.Index)") })
+							emit = append(emit, func() {
+								r.Check(okShape, "R02.1", kk, pp, ww, "checkIndex is not called with (counter[dst]+1, ibtp.Index)")
+							})
 						}
 						continue
 					}
@@ -159,7 +164,9 @@ func C02(c *Ctx) {
 				}
 				guardCall[cl] = true
 				kk, pp, ww := fmt.Sprintf("checkIBTP: checkIndex #%d arguments", nIdx), c.P.Pos(cl.Pos()), "expected index = "+field+"[dst] + 1, current = ibtp.Index"
-				emit = append(emit, func() { r.Check(okShape, "R02.1", kk, pp, ww, "checkIndex is not called with (counter[dst]+1, ibtp.Index)") })
+				emit = append(emit, func() {
+					r.Check(okShape, "R02.1", kk, pp, ww, "checkIndex is not called with (counter[dst]+1, ibtp.Index)")
+				})
 			}
 			es := core.EdgeSet{}
 			for b, m := range core.SuccessEdges(f, gsites) {
@@ -787,4 +794,62 @@ func (c *Ctx) c02Consumes() {
 		}
 		r.Check(bad == "" && len(sites(pi, step.p)) > 0, "R02.6", "ProcessIBTP: on every path of the request branch "+step.name, c.P.Pos(pi.Pos()), "no return of the request branch is reachable without it", step.bad+" (return at "+bad+")")
 	}
+}
+
+const childReceiptFSMText = "a receipt reaches its child through the child's state machine: the receipt counters of a one-to-many group are advanced only when the group ends, so until then the index check cannot tell a second receipt for the same child from the first; in changeMultiTxStatus every write of the reporting child's entry (ChildTxInfo[txId]) is therefore preceded by setFSM on the status loaded from that entry - also in the branch that fails the whole group - otherwise a receipt that contradicts an accepted one (FAILURE after SUCCESS for the same child) is accepted and flips a finished child (shared by C02 R02.8 and C05 R05.8)."
+
+// childReceiptThroughFSM: R02.8 / R05.8.
+func (c *Ctx) childReceiptThroughFSM(rule string) {
+	r := c.R
+	fn := c.fn(rule, tmPrefix+"changeMultiTxStatus")
+	if fn == nil {
+		return
+	}
+	var txID *ssa.Parameter
+	for _, p := range fn.Params {
+		if p.Name() == "txId" {
+			txID = p
+		}
+	}
+	if txID == nil {
+		for _, p := range fn.Params {
+			if bt, ok := p.Type().Underlying().(*types.Basic); ok && bt.Kind() == types.String {
+				txID = p // the last string parameter: the child id
+			}
+		}
+	}
+	if txID == nil {
+		r.Unknown(rule, "changeMultiTxStatus: child id parameter", c.P.Pos(fn.Pos()), "no string parameter naming the reporting child")
+		return
+	}
+	isChildMap := func(v ssa.Value) bool {
+		_, f, _, ok := core.FieldOf(core.Strip(v))
+		return ok && f == "ChildTxInfo"
+	}
+	isOwnLookup := func(v ssa.Value) bool {
+		lk, ok := v.(*ssa.Lookup)
+		return ok && isChildMap(lk.X) && core.Strip(lk.Index) == ssa.Value(txID)
+	}
+	isFSM := func(in ssa.Instruction) bool {
+		call, ok := in.(ssa.CallInstruction)
+		if !ok || !strings.HasSuffix(core.CalleeName(call), "TransactionManager).setFSM") {
+			return false
+		}
+		args := call.Common().Args
+		return len(args) >= 2 && core.Mentions(args[len(args)-2], isOwnLookup)
+	}
+	rs := core.Reach([]core.Point{core.EntryOf(fn)}, isFSM, nil)
+	n := 0
+	for _, b := range fn.Blocks {
+		for _, in := range b.Instrs {
+			mu, ok := in.(*ssa.MapUpdate)
+			if !ok || !isChildMap(mu.Map) || core.Strip(mu.Key) != ssa.Value(txID) {
+				continue
+			}
+			n++
+			r.Check(!rs.Has(in), rule, fmt.Sprintf("changeMultiTxStatus: write of the reporting child #%d behind its state machine", n), c.P.Pos(in.Pos()), "setFSM(&ChildTxInfo[txId] status, event) precedes the write on every path",
+				"the entry of the reporting child is written without its current status having passed the state machine; path (lines): "+rs.Witness(c.P, in)+": a failure receipt for a child that already reported success is accepted while the group is still BEGIN (the index check cannot see the duplicate: the counters move only when the group ends), the finished child flips and the whole group is failed on a replayed / contradicting receipt")
+		}
+	}
+	r.Floor(rule, "writes of the reporting child's entry in changeMultiTxStatus", n, 2)
 }
